@@ -12,6 +12,7 @@ theorem charRoom_pos (cw : Char → Nat) (s : List Char) : 1 ≤ charRoom cw s :
 mutual
 theorem smin_pos (cw : Char → Nat) : ∀ r : R, 1 ≤ smin cw r
   | .text t => by rw [smin]; exact charRoom_pos cw _
+  | .str t => by rw [smin]; exact charRoom_pos cw _
   | .padding p e c => by rw [smin]; have := smin_pos cw c; omega
   | .panel o c => by rw [smin]; split <;> omega
   | .align o c => by rw [smin]; exact smin_pos cw c
